@@ -175,7 +175,7 @@ def main():
             what = tb.split('LibraryFault: ')[-1].strip().splitlines()[0]
             sig = f'{prop}|{what.split("|")[0]}'
             rec = {'case': {'traceback': tb[-6000:]}, 'detail': what.split('|', 1)[-1][:400],
-                   'expected': 'well-formed XML', 'observed': 'not well-formed', 'count': 1}
+                   'expected': 'a running order the properties allow (well-formed, with its roCreate)', 'observed': what.split('|')[0], 'count': 1}
             path = findings.write_replay(prop, sig, rec, seed, False)
             print(f'VIOLATION property={prop} replay={path}')
             print(f'  signature: {sig}')
